@@ -68,6 +68,11 @@ func (s Log) Map(x float64) float64 {
 	}
 
 	logMin, logMax := math.Log(min), math.Log(max)
+	if logMin == logMax {
+		// The domain is degenerate at the resolution of the
+		// logarithm; avoid 0/0.
+		return 0.5
+	}
 	y := (math.Log(x) - logMin) / (logMax - logMin)
 	if neg {
 		y = 1 - y
